@@ -162,8 +162,31 @@ def run(pid, tier, seed):
         names, env = envmodel.names_and_env(tbl, ft, [target.f])
         drv.ask(tbl.hier()); drv.ask(names)
         reqs, meta = [], []
+        # a fixed corpus of the situations the property names: module names that overlap textually (pkg / pkg.utils / utils,
+        # foo / barfoo, typing / mytyping / pkg.typing), nested classes, a class named like its module, inside containers
+        cc = lambda c: ("cls", str(tbl.of(c)))
+        PkgCls, PUB, PUC, UA, UB = mods["pkg"].PkgCls, mods["pkg.utils"].B, mods["pkg.utils"].C, mods["utils"].A, mods["utils"].B
+        Foo, FooInner, Baz, Bar = mods["foo"].foo, mods["foo"].foo.Inner, mods["foo"].Baz, mods["barfoo"].Bar
+        Deep, MyfooInner = mods["nest"].Outer.Inner.Deep, mods["nest"].Myfoo.Inner
+        MyT, Proto = mods["mytyping"].Foo, mods["pkg.typing"].Proto
+        corpus = [
+            [("tuple", cc(PkgCls), cc(PUC)), cc(int), cc(PUC)],
+            [("dict", cc(str), ("list", cc(PUC))), cc(PkgCls), cc(int)],
+            [cc(PUC), ("list", cc(UA)), cc(PkgCls)],
+            [("union", cc(PkgCls), cc(PUC), cc(type(None))), cc(int), ("list", cc(PkgCls))],
+            [("tuple", cc(FooInner), cc(Baz)), cc(Bar), cc(Foo)],
+            [("list", cc(Bar)), cc(FooInner), cc(Bar)],
+            [("dict", cc(str), cc(Deep)), cc(MyfooInner), cc(FooInner)],
+            [("list", cc(MyT)), ("union", cc(Proto), cc(type(None))), cc(MyT)],
+            [("typeOf", str(tbl.of(PUC))), cc(PkgCls), ("typeOf", str(tbl.of(PkgCls)))],
+            [("set", cc(Proto)), cc(PkgCls), ("tuple", cc(MyT), cc(Proto))],
+            [("tupleOf", cc(PUC)), cc(PkgCls), cc(int)],
+            [cc(UA), cc(PUC), cc(PkgCls)],
+        ]
         for i in range(150 if quick else 20000):
             trees = [gen.ty(3), gen.ty(2), gen.ty(2)]
+            if i < len(corpus):
+                trees = corpus[i]          # the overlapping-name situations first, deterministically
             try:
                 pys = [tyconv.tree_to_ty(t, tbl) for t in trees]
                 raws = [tyconv.ty_to_tree(p, tbl) for p in pys]
